@@ -498,6 +498,9 @@ def r4_reader_lists(ctx, ck):
                 continue
             a = c1[0].b[0]
             good = False
+            if mir.strip(a) == T("array", ()) and par is None:
+                # the bare value read like a one-element list: no leading elements, the value itself is the last
+                good = not c2 or mir.strip(c2[0].b[0]) == T("param", 1, b.dbg.get(1, ""))
             if isinstance(a, tuple) and a[0] == "index" and isinstance(a[2], tuple) and a[2][0] == "agg" and a[2][1] == "std::ops::Range":
                 xs = a[1]
                 lo, hi = a[2][3]
@@ -510,16 +513,52 @@ def r4_reader_lists(ctx, ck):
 
 
 
+def _error_adapter_param(ctx, name):
+    """a crate-local fn that only rewrites the error side of a Result it is given:  r.map_err(..)  or
+    match r { Ok(v) => Ok(v), Err(e) => Err(..) }   -> index of that parameter, else None"""
+    if not ctx.has_body(name) or "{closure" in name:
+        return None
+    b = ctx.body(name)
+    if len(b.blocks) > 60 or b.loops():
+        return None
+    for i in range(1, b.argc + 1):
+        if not b.ltypes.get(i, "").startswith("std::result::Result<"):
+            continue
+        r = T("param", i, b.dbg.get(i, ""))
+        ok = True
+        n = 0
+        for p in mir.walk_function(b):
+            if p.outcome[0] in ("unreachable", "infeasible"):
+                continue
+            if p.outcome[0] != "return":
+                ok = False
+                break
+            ret = mir.strip(p.outcome[1])
+            n += 1
+            if isinstance(ret, tuple) and ret[0] == "call" and mir.method_name(ret[1]) == "map_err" and mir.strip(ret[2][0]) == r:
+                continue
+            var = [e.b for e in p.events if e.kind == "guard" and e.a == T("variantof", r)]
+            if var == ["Ok"] and isinstance(ret, tuple) and ret[0] == "agg" and ret[2] == "Ok" and mir.strip(ret[3][0]) == T("field", T("variant", r, "Ok"), "0"):
+                continue
+            if var == ["Err"] and isinstance(ret, tuple) and ret[0] == "agg" and ret[2] == "Err":
+                continue
+            ok = False
+            break
+        if ok and n:
+            return i - 1
+    return None
+
+
 def loader_chain_rule(ctx, ck, rid):
     """load_layout_from_file hands the JSON value exactly as serde_json::from_reader produced it to
     parse_layout_from_json, and its result exactly to convert: no pass in between rewrites the document or the layout
     (only error-message adapters over the Result are allowed)"""
-    ll = ctx.body("layout_loading::load_layout_from_file")
     ok = False
     why = "no successful path"
     saved = mir.Walker.AUTO_INLINE
-    mir.Walker.AUTO_INLINE = False      # a new helper between the steps must stay visible as a call
+    mir.Walker.AUTO_INLINE = False      # a new helper between the steps must stay visible as a call (body as compiled)
     try:
+        ll = ctx.body("layout_loading::load_layout_from_file")
         paths = mir.walk_function(ll)
     finally:
         mir.Walker.AUTO_INLINE = saved
@@ -537,6 +576,8 @@ def loader_chain_rule(ctx, ck, rid):
                     t = t[1]
                 elif isinstance(t, tuple) and t and t[0] == "call" and (mir.method_name(t[1]) in ("map_err",) or (t[1].startswith("layout_loading::convert_") and t[1].endswith("_error"))):
                     t = t[2][-1] if t[1].startswith("layout_loading::") else t[2][0]
+                elif isinstance(t, tuple) and t and t[0] == "call" and _error_adapter_param(ctx, t[1]) is not None:
+                    t = t[2][_error_adapter_param(ctx, t[1])]
                 else:
                     break
             return t
